@@ -42,6 +42,7 @@ func runC07(c *hx.Ctx) {
 	}
 	cleanReconnect(o, c)
 	tokensExhausted(o, c)
+	killTimeoutDuringPubrel(o, c)
 	ackAfterAccept(o, c)
 }
 
